@@ -86,9 +86,9 @@ AgreesWithLex ==
           /\ lexpos = lx.pos /\ lineno = lx.lineno /\ parenCount = lx.paren
           /\ errch = lx.errch
 
-(* the faithful counter and the physical line: lineno advances by NEWLINE tokens and ';', the physical line by \n *)
+(* the lexer's counter is the physical line: both advance by line breaks only *)
 LineCounters ==
-    /\ lineno = 1 + Cardinality({k \in DOMAIN toks : toks[k].type = "NEWLINE"})
+    /\ lineno = 1 + nnl
     /\ \A k \in DOMAIN toks : toks[k].line = 1 + Cardinality({j \in 1..(toks[k].endpos - Len(toks[k].text)) : text[j] = cNL})
 
 (* exactly one rule fires in every running state: the machine is deterministic and never stuck *)
